@@ -444,7 +444,7 @@ func c15Replace(c *core.Ctx, src []byte, ver string, r *core.Rand) {
 func init() {
 	core.Register(&core.Check{
 		ID:   "C15",
-		Rule: "cases = G5 synthetic nodes: every node kind x slot subsets (all 2^k for k<=12, else single/double toggles + PRNG subsets), every token a unique marker with unique free-floating markers, lists of 1..3 unique leaves with n-1 or n unique separators  ++  error-free parsed corpus/hostile inputs with one PRNG-chosen expression subtree replaced by a marker leaf; non-trivial = at least one marker expected in the output / a replacement whose surroundings were compared; distinct by (kind, subset) / (input, version, chunk range)",
+		Rule: "cases = G5 synthetic nodes: every node kind x slot subsets (all 2^k for k<=12, else single/double toggles + PRNG subsets), every token a unique marker with unique free-floating markers, lists of 1..3 unique leaves with n-1 or n unique separators  ++  error-free parsed corpus/hostile inputs with one PRNG-chosen expression subtree edited three ways (replaced by a marker leaf, replaced by a token-less word, wrapped into a token-less print node); non-trivial = at least one marker expected in the output / a replacement whose surroundings were compared; distinct by (kind, subset) / (input, version, chunk range)",
 		Assumptions: []string{
 			"expected order = struct field order with separator token lists interleaved with the list before them; a []byte Value is the default text of the token slot before it (printer contract visible in all leaf kinds)",
 			"glue the printer may add by itself: PHP keywords/punctuation, '<?php ', '?>', single spaces",
